@@ -485,30 +485,26 @@ def firstDoubleVote (vs : List (Nat × Nat × Nat)) : Option (Nat × Nat) :=
 
 /-! ### monitors -/
 
-def monC02 (learners : List Nat) (evs : List Ev) : String :=
+def monC02 (_learners : List Nat) (evs : List Ev) : String :=
   if !votesOK (votesOf evs) then
     match firstDoubleVote (votesOf evs) with
     | some (n, t) =>
-      let mid := betweenVotes evs n t
-      if hasMarkOn mid n "crash" then "bad double-vote-after-crash"
-      else if hasMarkOn mid n "sd" then "bad double-vote-after-same-term-stepdown"
-      else if hasMarkOn mid n "ae" then "bad revote-for-announced-leader"
-      else "bad double-vote"
+      -- open finding F32: the vote was overwritten by the AppendEntries of a leader, whose request was then granted
+      if hasMarkOn (betweenVotes evs n t) n "ae" then "bad revote-for-announced-leader" else "bad double-vote"
     | none => "bad double-vote"
   else
     match (nodesOf evs).find? fun n => !sortedLE (termsOf evs n) with
-    | some n =>
-      if hasMarkOn evs n "crash" then "bad term-regressed-after-crash"
-      else if learners.contains n && hasMarkOn evs n "restart" then "bad learner-term-reset-at-restart"
-      else "bad term-regressed"
+    | some _ => "bad term-regressed"
     | none => "ok"
 
 def monC01 (evs : List Ev) : String :=
   if leadersOK (leadersOf evs) then
     (if (leadersOf evs).isEmpty then "skip" else "ok")
-  else if hasMark evs "crash" then "bad two-leaders-after-crash"
-  else if hasMark evs "sd" then "bad two-leaders-after-same-term-stepdown"
-  else if evs.any (fun | .skip _ _ => true | _ => false) then "bad two-leaders-via-single-node-shortcut"
+  -- open finding F25 (C28): a restarted node rebuilds its membership from the configuration file; a node that was
+  -- started alone and expanded later believes it is alone again and elects itself (outside C01's static-membership
+  -- hypothesis)
+  else if evs.any (fun | .skip n _ => hasMarkOn evs n "restart" | _ => false) then
+    "bad two-leaders-after-restart-with-initial-config"
   else "bad two-leaders"
 
 def monC03cl (evs : List Ev) : String :=
@@ -516,15 +512,12 @@ def monC03cl (evs : List Ev) : String :=
   if skips.isEmpty then "skip"
   else if skips.all (· == 0) then "ok" else "bad skip-with-other-voters"
 
-def monC31 (learners : List Nat) (evs : List Ev) : String :=
+def monC31 (_learners : List Nat) (evs : List Ev) : String :=
   let ps := allPubs evs
   if ps.isEmpty then "skip"
   else
     match (nodesOf evs).find? fun n => !sortedLE (pubTerms (pubsOf evs n)) with
-    | some n =>
-      if hasMarkOn evs n "crash" then "bad notified-term-regressed-after-crash"
-      else if learners.contains n && hasMarkOn evs n "restart" then "bad notified-term-regressed-after-learner-restart"
-      else "bad notified-term-regressed"
+    | some _ => "bad notified-term-regressed"
     | none =>
       let evidence := leadersOf evs ++ claimsOf evs
       if !pubsTruthful ps evidence then "bad notified-leader-never-led-that-term"
